@@ -5,7 +5,7 @@ HOOKS = {
     "source_commits": [],
     "add_only": True,
 }
-NOTES = ("Three genuine defects were repaired in /repo by unguarded fix: commits 55ca609 (C09), 1b6dc44 (C08), 7f5ce42 (C12); "
+NOTES = ("Four genuine defects were repaired in /repo by unguarded fix: commits 55ca609 (C09), 1b6dc44 (C08), 7f5ce42 (C12), 34e4241 (C09/C04); "
          "see known_findings.json and DESIGN.md §8. Checks honour VERIF_SEED and VERIF_TIER. Exit 2 + INTERNAL lines mean the machinery itself is broken.")
 PENDING = {}
 CLAIMS = {
@@ -56,7 +56,7 @@ CLAIMS = {
     "C02": {
         "text": "Kernel-checked for every history: weighted data, threshold and weights are never modified by updates (c02_fields_constant, c02_weighted_data); a present cache was computed in the very last set_params call "
                 "from the basis matrix the model returned for the accepted alpha, and its residual matrix is Yw - (W Phi) C for the coefficients in the same cache (c02_cache_is_computed_now); the residual vector is the "
-                "column-after-column stacking, element i + j*N = entry (i,j) (c02_residual_layout). Tie: params(), weighted_data() bit-exact, residuals() within tolerance at every step of every history; monitor: residuals recomputed from the implementation's own C.",
+                "column-after-column stacking, element i + j*N = entry (i,j) (c02_residual_layout). Tie: params(), weighted_data() bit-exact, residuals() within tolerance at every step of every history; monitor: residuals recomputed from the implementation's own C. The data, threshold and weights of the problem a whole fit hands back are those that went in (c02_fit_fixed, Props/E2E.lean).",
         "note": "Trusted: as C01. best_fit()/nonlinear_parameters() of a FitResult are compared in the fit stream (C04).",
     },
     "C03": {
@@ -69,13 +69,13 @@ CLAIMS = {
     "C10": {
         "text": "Kernel-checked: after set_params alpha the cache is computeCache(Yw, eps, W Phi) for the Phi the model returned - nothing of earlier states enters (c10_function_of_alpha), so a problem with any history and a fresh one agree (c10_history_free, c10_build_is_set); "
                 "a failed update clears the cache (c10_failed_update_clears); queries do not change the state (c10_query_pure); in the Option-cell transcription of both uninit write loops no uninitialised cell survives, for every shape and every schedule executing all column tasks "
-                "(c10_no_uninit, c10_no_uninit_seq). Tie: history-vs-fresh and repeated-query twins on the real code, bit for bit, plus model comparison of all outputs.",
+                "(c10_no_uninit, c10_no_uninit_seq). Tie: history-vs-fresh and repeated-query twins on the real code, bit for bit, plus model comparison of all outputs. The cache of the problem a whole fit hands back equals the cache of a problem freshly built at the reported parameters (c10_fit_fresh, Props/E2E.lean).",
         "note": "Trusted: as C01; the quantifier over heap contents is carried by the theorem on the model; on the code it is sampled (a poisoning allocator run is planned, DESIGN.md §7 C10).",
     },
     "C06": {
         "text": "Kernel-checked: the weighted problem and the problem with pre-scaled rows feed identical inputs to SVD, solve, residual and every Jacobian block (c06_equiv_cache, c06_equiv_jac: definitional), "
                 "unit weights = no weights (c06_unit), a zero weight removes every influence of that row of data, basis functions and derivatives (c06_zero_weight), the residual is W(Y - Phi C): each weight exactly once (c06_weights_once, c06_weights_once_entry). "
-                "Tie: three kinds of twins executed on the real code at every step of random histories.",
+                "Tie: three kinds of twins executed on the real code at every step of random histories. FIT LEVEL (Props/E2E.lean): the weighted problem and the row-scaled unweighted problem have literally the same specification (spec_weighted_eq_scaled), hence a whole fit gives the same decision, report and final parameters / coefficients / residuals / decomposition for every behaviour of the optimizer's numerics (c06_fit_equiv).",
         "note": "Trusted: as C01. The optimizer and the statistics are functions of residuals/Jacobian/coefficients (C04, C12), so equality there is inherited; fits of twins are compared in the fit stream.",
     },
     "C07": {
@@ -86,7 +86,7 @@ CLAIMS = {
     },
     "C11": {
         "text": "Kernel-checked: for every schedule that executes all column tasks - any order - the parallel Jacobian equals the sequential one whenever all derivatives evaluate (c11_par_eq_seq); if a failing derivative's task runs the parallel Jacobian is absent like the sequential one (c11_par_failure); "
-                "set_params/residuals/params are the same definitions; into_sequential preserves every field (c11_into_sequential). Assumption: derivative results during one Jacobian evaluation do not depend on call order (DerivDet). Tie: parallel vs sequential twins under pools of 1..16 threads.",
+                "set_params/residuals/params are the same definitions; into_sequential preserves every field (c11_into_sequential). Assumption: derivative results during one Jacobian evaluation do not depend on call order (DerivDet). Tie: parallel vs sequential twins under pools of 1..16 threads. WHOLE FIT (Props/E2E.lean, Props/Refine.lean): for a model honouring the trait contract, the parallel problem under ANY legal scheduler (a possibly different order of the column tasks at every Jacobian evaluation, early stop only after a failed task) refines the same specification as the sequential problem (abs_hom_par, abs_hom_seq); therefore a whole fit returns the same Ok/Err, the same report and the same final parameters and cache (c11_fit_eq).",
         "note": "Trusted: as C01; rayon schedules are abstracted (any order), sampled on the code by pool size. Fits of parallel problems are compared in the fit stream.",
     },
     "C04": {
@@ -94,7 +94,7 @@ CLAIMS = {
                 "a trial is accepted only if it strictly decreases the residual norm (c04_accept_decreases, c04_objective_decreases, c04_predicted_nonneg); over a WHOLE run, by invariants over LM.run: the reported objective never exceeds the objective at the initial guess (c04_monotone), "
                 "after a successful termination the returned problem reports residuals that are those of the parameters it reports and the reported objective is half their squared norm - also when the last trial was rejected and the accepted parameters were re-applied (c04_coherent, for problems whose outputs are a function of the applied parameters = C10), "
                 "the evaluation count never exceeds max(patience*(P+1),2) and the optimizer model always terminates (c04_budget, c04_tests_budget); fit_with_statistics = Err(fit result) iff fit failed / coefficients absent / statistics erred (c04_fws). "
-                "Tie: fit stream; every model call of every fit is logged and checked by a trace acceptor to be an execution of LM.run.",
+                "Tie: fit stream; every model call of every fit is logged and checked by a trace acceptor to be an execution of LM.run. END TO END on varpro's own problem (Props/E2E.lean, through the refinement Props/Refine.lean of the real problem to the specification `(alpha, cache of alpha)` and the homomorphism lemma Proofs/LMHom.lean: the optimizer commutes with problem homomorphisms): for every model honouring the trait contract, every SVD routine and every behaviour of the optimizer's numerics, the problem handed back holds exactly the cache of the parameters it reports for EVERY termination (c04_final_cache), and a successful fit carries coefficients = truncated solve for W Phi(alpha_hat), residuals = Yw - W Phi(alpha_hat) C, objective = 1/2|residuals|^2 <= initial objective, evaluations within budget (c04_e2e).",
         "note": "Trusted: Lean kernel; the transcription of lm.rs control flow (Core/LM.lean) as validated by the trace acceptor on every fit; QR/LMPAR numerics are oracles (nothing assumed); NumLaws (0 < 1/2, 0 < 1e-4, 0 <= min_positive, norms >= 0); floating point modelled not verified.",
     },
     "C09": {
